@@ -25,7 +25,7 @@ META = dict(
          "observations: the statement speaks about the values an operation gives.",
 )
 TYPES = ["Waves", "Images", "DiffractionPatterns", "RealSpaceLineProfiles", "ReciprocalSpaceLineProfiles", "PolarMeasurements", "MeasurementsEnsemble"]
-AXES = ["ordinal", "scan", "tilt", "positions", "fp"]
+AXES = ["ordinal", "scan", "tilt", "positions", "fp", "tiltx"]
 SHAPES = [[], [3], [2, 3]]
 
 
@@ -52,6 +52,8 @@ def make_axis(kind, n, i):
         return A.ScanAxis(label="xy"[i % 2], sampling=0.5, offset=1.0, units="Å")
     if kind == "tilt":
         return A.TiltAxis(label="tilt", values=tuple((float(j), -2.0 * j) for j in range(n)))
+    if kind == "tiltx":  # per-axis tilt: the item's total tilt is the object's base tilt PLUS the axis value
+        return A.AxisAlignedTiltAxis(direction="x", values=tuple(0.5 + 1.5 * j for j in range(n)))
     if kind == "positions":
         return A.PositionsAxis(values=tuple((0.5 * j, 1.0 + j) for j in range(n)))
     return A.FrozenPhononsAxis()
@@ -68,21 +70,22 @@ def make(c, salt=0):
     r = rng("c29", c["type"], sh, salt)
     arr = r.uniform(0.5, 2.0, size=sh + base).astype(np.float32)
     axes = [make_axis(k, n, i) for i, (k, n) in enumerate(zip(c["axes"], sh))]
+    BASE = {"tag": 1, "base_tilt_x": 2.0, "base_tilt_y": -1.0} if "tiltx" in c["axes"] else {"tag": 1}
     if c["type"] == "Waves":
         arr = (arr + 1j * r.uniform(0.5, 2.0, size=arr.shape)).astype(np.complex64)
-        obj = abtem.Waves(arr, energy=1e5, sampling=0.2, ensemble_axes_metadata=axes, metadata={"tag": 1})
+        obj = abtem.Waves(arr, energy=1e5, sampling=0.2, ensemble_axes_metadata=axes, metadata=dict(BASE))
     elif c["type"] == "Images":
-        obj = abtem.Images(arr, sampling=0.2, ensemble_axes_metadata=axes, metadata={"tag": 1})
+        obj = abtem.Images(arr, sampling=0.2, ensemble_axes_metadata=axes, metadata=dict(BASE))
     elif c["type"] == "DiffractionPatterns":
-        obj = M.DiffractionPatterns(arr, sampling=0.1, ensemble_axes_metadata=axes, metadata={"energy": 1e5})
+        obj = M.DiffractionPatterns(arr, sampling=0.1, ensemble_axes_metadata=axes, metadata=dict(BASE, energy=1e5))
     elif c["type"] == "RealSpaceLineProfiles":
-        obj = M.RealSpaceLineProfiles(arr, sampling=0.2, ensemble_axes_metadata=axes, metadata={"tag": 1})
+        obj = M.RealSpaceLineProfiles(arr, sampling=0.2, ensemble_axes_metadata=axes, metadata=dict(BASE))
     elif c["type"] == "ReciprocalSpaceLineProfiles":
-        obj = M.ReciprocalSpaceLineProfiles(arr, sampling=0.2, ensemble_axes_metadata=axes, metadata={"tag": 1})
+        obj = M.ReciprocalSpaceLineProfiles(arr, sampling=0.2, ensemble_axes_metadata=axes, metadata=dict(BASE))
     elif c["type"] == "PolarMeasurements":
-        obj = M.PolarMeasurements(arr, radial_sampling=1.0, azimuthal_sampling=2 * np.pi / 3, ensemble_axes_metadata=axes, metadata={"tag": 1})
+        obj = M.PolarMeasurements(arr, radial_sampling=1.0, azimuthal_sampling=2 * np.pi / 3, ensemble_axes_metadata=axes, metadata=dict(BASE))
     else:
-        obj = M.MeasurementsEnsemble(arr, ensemble_axes_metadata=axes, metadata={"tag": 1})
+        obj = M.MeasurementsEnsemble(arr, ensemble_axes_metadata=axes, metadata=dict(BASE))
     if c["lazy"]:
         obj = obj.ensure_lazy()
     return obj, arr
@@ -188,8 +191,13 @@ def run_case(c):
                     ax = make_axis(c["axes"][ai], sh[ai], ai)
                     md = got.metadata
                     j = int(it)
-                    if c["axes"][ai] in ("tilt", "positions") and c["axes"].count(c["axes"][ai]) > 1:
+                    if (c["axes"][ai] in ("tilt", "positions") and c["axes"].count(c["axes"][ai]) > 1) or ("tilt" in c["axes"] and "tiltx" in c["axes"]):
                         pass  # two axes with the same metadata key in one object: which one wins is not defined
+                    elif c["axes"][ai] == "tiltx" and c["axes"].count("tiltx") == 1 and "tilt" not in c["axes"]:
+                        want = 2.0 + ax.values[j]
+                        if abs(md.get("base_tilt_x", 1e9) - want) > 1e-9 or md.get("base_tilt_y") != -1.0:
+                            bad("index/item-metadata/axis-aligned-tilt", "integer index %d on an x-tilt axis of an object with base tilt (2, -1): metadata has base tilt (%r, %r), expected (%r, -1.0)" % (
+                                j, md.get("base_tilt_x"), md.get("base_tilt_y"), want))
                     elif c["axes"][ai] == "tilt":
                         v = ax.values[j]
                         if md.get("base_tilt_x") != v[0] or md.get("base_tilt_y") != v[1]:
